@@ -487,6 +487,10 @@ VARIANTS = [
     dict(property="C01", name="quadratic-wrap-below-live-at-zero", file=INTERP, expect="get_nearest_times_3",
          edits=[("    for (idx, sub) in (0..3).enumerate() {\n        index = start;\n        subindex = frac + sub;\n        if subindex < 0 {",
                  "    for (idx, sub) in (0..3).enumerate() {\n        index = start;\n        subindex = frac + sub;\n        if subindex <= 0 {")]),
+    dict(property="C12", name="relative-reject-reports-wrong-limit", file=FAST, count=4, expect="set_resample_ratio_relative/reject-reports",
+         old="                max_relative_ratio: self.max_relative_ratio,", new="                max_relative_ratio: self.resample_ratio_original,"),
+    dict(property="C01", name="sample-loop-skips-all-points", file=SINCRS, expect="the sample loop",
+         old="for (x, w) in window.iter().enumerate().take(totpoints) {", new="for (x, w) in window.iter().enumerate().skip(totpoints) {"),
 ]
 
 
